@@ -39,8 +39,15 @@ WHAT = {
 }
 
 
+def nonfinite_state(built):
+    """some read accessor of the original returned a non-finite value (e.g. a stored ln(0) = -inf)"""
+    return any(not all(q["cok"]) for q in answered(built["obs"]) if q["name"] not in ("predict", "predict_oob", "main"))
+
+
 def key_of(built, e, clause, alt):
     t = built["type"]
+    if clause in ("DeFails", "SerFails") and e.get("fmt") in ("json", "jsonperm") and nonfinite_state(built):
+        return "json: model state contains -inf (%s %s)" % (t, built["cfg"])
     if clause == "EqOther":
         return "%s: == holds against a model fitted on %s data whose predictions differ" % (
             t, {"shift": "translated", "indep": "independent", "rowsonly": "rows-only-changed"}.get(alt, alt))
